@@ -32,7 +32,7 @@ INGEST_TRUST = ["the insert face applies a block iff Do returns nil (or the faul
                 "synctest's fake clock and quiescence detection", "unmanaged stretches (inside dependencies) run under the single-P runtime order"]
 
 
-def ingest(pid, technique, level_text, level_note, rule, probes, stall=False, quick_checks=60, design_ref=""):
+def ingest(pid, technique, level_text, level_note, rule, probes, stall=False, quick_checks=120, design_ref=""):
     return {
         "pkg": "ingestsim", "test": "TestIngest", "instrument": True, "instr_pkgs": ["./writer/...", "./reader/..."], "level": "exploration",
         "quick": {"workers": 16, "checks": quick_checks, "shrink": "45s", "worker_timeout": 1500},
@@ -83,7 +83,7 @@ READ_COMPONENTS = {
 }
 
 
-def read(pid, test, technique, level_text, level_note, rule, probes, crash=False, quick_checks=400, design_ref=""):
+def read(pid, test, technique, level_text, level_note, rule, probes, crash=False, quick_checks=800, design_ref=""):
     return {
         "pkg": "readsim", "test": test, "instrument": True, "instr_pkgs": ["./writer/...", "./reader/..."], "level": "exploration",
         "quick": {"workers": 16, "checks": quick_checks, "shrink": "45s", "worker_timeout": 1500},
@@ -147,11 +147,11 @@ PROPS.update({
 PROPS["C14"] = read("C14", "TestC14", "deterministic simulation of translation histories: the SQL observed at the query face for one request is compared (after erasing time literals) between a first translation, one after a history of other translations, one interleaved with concurrent translations by the baton scheduler, earlier runs of the same worker process, successive ticks of the live-tail loop on one prepared plan, and the portions of a complex TraceQL request",
                     "Histories, interleavings and repeated executions are simulated with the real services; equal canonical text implies equal meaning (sound for passing), any other difference is reported. Query programs are sampled from the LogQL/TraceQL generators.",
                     "the canonicaliser erases integer literals of 9+ digits, date literals, and for TraceQL portions the portion selector and the list of found trace ids; live tail is exercised for log queries only (Loki defines tailing for log queries)", READ_RULE.replace("1-3 concurrent clients x 1-4 requests", "one subject request translated first / after 0-4 other requests / concurrently with 0-3 others / tailed for 0-4 ticks"),
-                    ["tail-ticks-compared", "traceql-portions-compared", "translations-compared"], quick_checks=300, design_ref="DESIGN.md §5 C14")
+                    ["tail-ticks-compared", "traceql-portions-compared", "translations-compared"], quick_checks=600, design_ref="DESIGN.md §5 C14")
 
 PROPS["C09"] = read("C09", "TestC09", "deterministic simulation of the split LogQL pipeline: the query face serves what ClickHouse returns for the prefix before the split point (computed by a small executable reference evaluator), the real in-process stage goroutines run under the baton scheduler with varying batch boundaries and row latencies, and the response is compared with the reference evaluation of the whole program",
                     "Structured programs (json/logfmt/line_format split; line filters, string and numeric label filters with and/or, drop, unwrap, 11 range functions with by-grouping, 5 vector aggregations with by/without, comparison, limit, direction) over generated data sets; entries are compared as multisets keyed by label set, matrix points against tumbling range buckets. The split point assumed by the harness is confirmed with the tree's own GetBreakpoint/AnalyzeMetrics15sShortcut. Programs and data are sampled.",
                     "the reference follows the two qryn engines where both deviate from Loki in the same way (unwrapped label kept, bare aggregation per series, label_format copy, unanchored label regex are not judged); only well-formed lines; rejected query forms are counted, not judged",
                     "a case is one structured LogQL program whose pipeline is split by json/logfmt/line_format, a data set of 1-3 series x 0-130 lines from a catalogue, request parameters (limit, direction, step), per-row latency and a schedule tape; "
                     "non-trivial = at least one row was served; distinct = distinct hash of (query text, grant sequence, rows served)",
-                    ["more-than-one-scan-batch", "served-rows", "entries-after-pipeline"], quick_checks=400, design_ref="DESIGN.md §5 C09")
+                    ["more-than-one-scan-batch", "served-rows", "entries-after-pipeline"], quick_checks=800, design_ref="DESIGN.md §5 C09")
